@@ -1,6 +1,6 @@
 (* C01 -- property theorems only.  Proofs live in C01/Proofs*.v. *)
 From Coq Require Import NArith List.
-From DV Require Import Base.Outcome Base.Bytes Base.Names Base.PName C01.Gen C01.Model C01.Model2 C01.Model3 C01.Model4 C01.Proofs C01.Proofs2 C01.Proofs3 C01.Proofs4 C01.Proofs5 C01.Proofs6 C01.Proofs7 C01.Proofs8 C01.Proofs9.
+From DV Require Import Base.Outcome Base.Bytes Base.Names Base.PName C01.Gen C01.Model C01.Model2 C01.Model3 C01.Model4 C01.Proofs C01.Proofs2 C01.Proofs3 C01.Proofs4 C01.Proofs5 C01.Proofs6 C01.Proofs7 C01.Proofs8 C01.Proofs9 C01.ProofsW.
 From DV Require Import C05.Schema C05.Model.
 Import ListNotations.
 Local Open Scope N_scope.
@@ -289,3 +289,45 @@ Theorem C01_constructors_agree : forall m,
   Forall (fun b => b = (12 <=? mlen m)) (c01_ctor m) /\ length (c01_ctor m) = 7%nat.
 Proof. exact constructors_agree. Qed.
 Print Assumptions C01_constructors_agree.
+
+(* ---- round 5 widening: bounds the section iterators keep ---- *)
+Theorem C01_parse_ref_skip_agree : forall m pos lim p,
+  parse_ref m pos lim = Ok p -> skip_name m pos lim = Ok (pn_end p).
+Proof. exact parse_ref_skip_agree. Qed.
+Print Assumptions C01_parse_ref_skip_agree.
+
+Theorem C01_question_extent_within : forall m pos lim q,
+  N.le lim (mlen m) -> question_parse m pos lim = Ok q ->
+  q_end q = N.add (pn_end (q_name q)) 4%N /\ N.le (q_end q) lim /\ N.le (q_end q) (mlen m).
+Proof. exact question_extent_within. Qed.
+Print Assumptions C01_question_extent_within.
+
+Theorem C01_section_yields_at_most_count : forall (A : Type) (parse : N -> outcome A) (endof : A -> N) fuel s l s',
+  drain (sec_next parse endof) fuel s nil = Ok (l, s') -> s_err s = None ->
+  le (length l) (N.to_nat (s_cnt s)) /\ has_err (List.removelast l) = false.
+Proof. exact (@section_yields_at_most_count). Qed.
+Print Assumptions C01_section_yields_at_most_count.
+
+Theorem C01_section_fused_yields_nothing : forall (A : Type) (parse : N -> outcome A) (endof : A -> N) fuel s e l s',
+  drain (sec_next parse endof) fuel s nil = Ok (l, s') -> s_err s = Some e -> l = nil /\ s' = s.
+Proof. exact (@section_fused_yields_nothing). Qed.
+Print Assumptions C01_section_fused_yields_nothing.
+
+Theorem C01_question_iter_within : forall m fuel s l s',
+  drain (q_next m) fuel s nil = Ok (l, s') -> N.le (s_pos s) (mlen m) ->
+  N.le (s_pos s') (mlen m) /\ List.Forall (fun x => N.le (s_pos (snd x)) (mlen m)) l.
+Proof. exact question_iter_within. Qed.
+Print Assumptions C01_question_iter_within.
+
+Theorem C01_record_iter_within : forall m fuel s l s',
+  drain (r_next m) fuel s nil = Ok (l, s') -> N.le (s_pos s) (mlen m) ->
+  N.le (s_pos s') (mlen m) /\ List.Forall (fun x => N.le (s_pos (snd x)) (mlen m)) l.
+Proof. exact record_iter_within. Qed.
+Print Assumptions C01_record_iter_within.
+
+Theorem C01_sections_within : forall m q a ns ar,
+  Proofs2.has_header m -> msg_sections m = Ok (q, a, ns, ar) ->
+  s_pos q = header_len /\ N.le (s_pos q) (mlen m) /\ N.le (s_pos a) (mlen m) /\
+  N.le (s_pos ns) (mlen m) /\ N.le (s_pos ar) (mlen m).
+Proof. exact sections_within. Qed.
+Print Assumptions C01_sections_within.
